@@ -72,7 +72,7 @@ def rule_validation_pipeline(ctx, P, r):
         checks = [
             ('instance found', lambda t: t[0] == 'ne' and 'get_by_desc' in t[1] + t[2] and 'null' in (t[1], t[2])),
             ('native-order header (get_libec_version == 0)', lambda t: t[0] == 'eq' and '@get_libec_version(' in t[1] and t[2] == '0'),
-            ('version <= LIBERASURECODE_VERSION', lambda t: t[0] == 'ule' and t[1].startswith('*local') and const_of(t[2]) is not None),
+            ('version <= LIBERASURECODE_VERSION', lambda t: t[0] in ('ule', 'ult') and t[1].startswith('*local') and const_of(t[2]) is not None),
             ('metadata query == 0', lambda t: t[0] == 'eq' and '@liberasurecode_get_fragment_metadata(' in t[1] and t[2] == '0'),
             ('metadata verdict == 0', lambda t: t[0] == 'eq' and '@is_invalid_fragment_metadata(' in t[1] and t[2] == '0'),
         ]
@@ -87,7 +87,7 @@ def rule_validation_pipeline(ctx, P, r):
             else:
                 r.ok(inst, loc=T[i][4].loc, func=h.name)
                 if name.startswith('version'):
-                    libver = const_of(T[i][2])
+                    libver = const_of(T[i][2]) - (1 if T[i][0] == 'ult' else 0)          # v < C + 1 is v <= C
                 last = i
     for n, p in enumerate([p for p in paths if p.ret != '0']):
         c = const_of(p.ret)
